@@ -93,6 +93,7 @@ func (f *FileOutputHandler) Write(
 					Hash:      fileHash,
 					SizeBytes: fileInfo.Size(),
 				},
+				IsExecutable: fileInfo.Mode()&0111 != 0,
 			},
 		},
 	}, nil
@@ -110,7 +111,8 @@ func (f *FileOutputHandler) Load(
 	// If the local hash is the same as the cached one we don't need to
 	// load the file from the CAS
 	if err == nil && existingHash == output.GetFile().GetDigest().GetHash() {
-		return nil
+		// The content is already there: only make sure the executable bit is the cached one
+		return restoreFileMode(absOutputPath, output.GetFile().GetIsExecutable())
 	}
 
 	progress := tracker
@@ -153,5 +155,21 @@ func (f *FileOutputHandler) Load(
 		return err
 	}
 
-	return nil
+	return restoreFileMode(absOutputPath, output.GetFile().GetIsExecutable())
+}
+
+// restoreFileMode sets the executable permission of a restored file output to what it was when cached
+func restoreFileMode(path string, isExecutable bool) error {
+	info, err := os.Stat(path)
+	if err != nil {
+		return err
+	}
+	if (info.Mode()&0111 != 0) == isExecutable {
+		return nil
+	}
+	mode := os.FileMode(0644)
+	if isExecutable {
+		mode = 0755
+	}
+	return os.Chmod(path, mode)
 }
